@@ -209,6 +209,7 @@ void run_case(Ctx& c) {
         const auto before = ctl::take_snapshot(node, server.node_mutex(), tracked);
         const int stops_before = server.stop_calls();
         auto resp = server.roundtrip(q);
+        if (!resp.ok && server.timed_out()) { c.label("control_timeout_inconclusive"); return; }   // a stalled machine is not a verdict
         if (!resp.ok) c.fail("C27:harness-error", "no control response for " + std::string(kKindName[kind]));
         const std::string status = resp.field("STATUS"), code = resp.field("CODE");
         const auto after = ctl::take_snapshot(node, server.node_mutex(), tracked);
